@@ -7,6 +7,7 @@ A kernel is described by a dict:
   tol(case, model_nested, level) -> (tol_abs or None, tol_fn or None), extra_check(case, impl, model) -> detail|None
 """
 import itertools
+import os
 import random
 from fractions import Fraction
 
@@ -102,7 +103,9 @@ def gen_cases(tier, seed, salt, lmax_block=5, lmax_basis=3, extra=None, nb_quick
     from lib import gen_basis, gen_window_pair
     rng = random.Random(1000003 * seed + salt)
     cases = []
-    reps = 1 if tier == "quick" else block_reps_thorough
+    # thorough tier: VERIF_THOROUGH_SCALE (default 3) multiplies the number of block repetitions and generated bases
+    scale = max(1, int(os.environ.get("VERIF_THOROUGH_SCALE", "3") or 3))
+    reps = 1 if tier == "quick" else block_reps_thorough * scale
     for rep_i in range(reps):
         for la, lb in itertools.product(range(lmax_block + 1), range(lmax_block + 1)):
             big = la + lb >= 7
@@ -142,7 +145,7 @@ def gen_cases(tier, seed, salt, lmax_block=5, lmax_basis=3, extra=None, nb_quick
             if extra:
                 c.update(extra(rng, "basis", [sa, sb]))
             cases.append(c)
-    nb = nb_quick if tier == "quick" else nb_thorough
+    nb = nb_quick if tier == "quick" else nb_thorough * scale
     for i in range(nb):
         n = 1 + i % 4
         lm = lmax_basis if n <= 2 else min(lmax_basis, 3)
